@@ -237,9 +237,26 @@ def rule_scope_order(prog):
             ins = [fc.tstr(t) for t in b["sig_in"]]
             if "DataType" in fc.tstr(b["sig_out"]) and any("LookupTable" in i for i in ins) and any("TypeExpression" in i for i in ins):
                 resolvers.add(b["p"])
+    # a helper that puts the LookupTable together from an `Option<&LocalTable>` it is handed and calls a resolver: the scope is decided
+    # where the helper is called (`local_data_type(.., None)` / `local_data_type(.., Some(local_table))`)
+    wrappers = {}
+    for b in fc.bodies:
+        if b["k"] != "fn" or not b["p"].startswith("spl_frontend::table::") or b["p"] in resolvers:
+            continue
+        pidx_ = {bd["id"]: i_ for i_, q in enumerate(b["params"]) for bd in hir.pat_bindings(q)
+                 if "LocalTable" in fc.tstr(bd["bt"]) and "Option<" in fc.tstr(bd["bt"])}
+        if not pidx_:
+            continue
+        for lit_ in hir.nodes(b["body"], "Struct"):
+            if lit_.get("adt") != LT:
+                continue
+            f_ = {x["name"]: x["e"] for x in lit_["fields"]}
+            pl_ = hir.path_local(hir.strip(f_.get("local_table", {})))
+            if pl_ and pl_["id"] in pidx_ and any((hir.callee(cl_) or "") in resolvers for cl_ in hir.nodes(b["body"], "Call")):
+                wrappers[b["p"]] = pidx_[pl_["id"]]
     n_ts = 0
     for b in fc.bodies:
-        if not b["p"].startswith("spl_frontend::table::") or b["p"] in resolvers:
+        if not b["p"].startswith("spl_frontend::table::") or b["p"] in resolvers or b["p"] in wrappers:
             continue
         owner = None
         if "impl_self" in b:
@@ -257,6 +274,22 @@ def rule_scope_order(prog):
             if l["pat"].get("k") == "Binding" and l.get("init") is not None:
                 defs_[l["pat"]["id"]] = l["init"]
         for call in hir.nodes(b["body"], "Call"):
+            if (hir.callee(call) or "") in wrappers and owner is not None:
+                j_ = wrappers[hir.callee(call)]
+                a_ = hir.strip(call["args"][j_]) if j_ < len(call["args"]) else {}
+                found = "?"
+                if a_.get("k") == "Path" and last(a_["res"].get("ctor_of", "")) == "None":
+                    found = "None"
+                elif a_.get("k") == "Call" and hir.path_def(a_["f"]) and last(hir.path_def(a_["f"]).get("ctor_of", "")) == "Some":
+                    found = "Some"
+                n_ts += 1
+                out.add(b["d"], "type expression of a %s is resolved in the %s scope" % (owner, "procedure" if TYPE_SCOPE[owner] == "Some" else "global"),
+                        (found == TYPE_SCOPE[owner]) if found != "?" else None, fc.loc(call["sp"]),
+                        "the local table handed to `%s` is %s(..) here: %s" % (last(hir.callee(call)), found,
+                            "an earlier parameter / local named like a type shadows the type in this declaration's type expression, "
+                            "so a valid program gets a `not a type` diagnostic" if found == "Some" else
+                            "a local declaration cannot see the procedure's scope"), ("typescope",))
+                continue
             if (hir.callee(call) or "") not in resolvers:
                 continue
             lit = None
@@ -1015,6 +1048,13 @@ def rule_entry_guard(prog):
                             pvs = hir.pat_variants_all(p["pat"])
                         if pvs and all(last(pv) == "Type" and pv.startswith("spl_frontend::table::") for pv in pvs):
                             # the arm must destructure *this* entry
+                            type_only = True
+                # (`let GlobalEntry::Type(t) = entry else { return None };` in front of the conversion establishes the same)
+                for s in before:
+                    if s.get("k") == "Let" and s.get("els") is not None and s.get("init") is not None:
+                        pvs = hir.pat_variants_all(s["pat"])
+                        if pvs and all(last(pv) == "Type" and pv.startswith("spl_frontend::table::") for pv in pvs) and \
+                                place(hir.strip_ref(s["init"])) == ep:
                             type_only = True
                 if int_ret and type_only:
                     guarded, why = True, "`int` early return in a type-only arm"
